@@ -16,6 +16,18 @@ Definition views (seq : list pstr) (sst : list chr) : val :=
           of_res of_locs (enclosed_domains sst);
           of_res of_bool (is_domainlevel_complement seq sst) ].
 
+Definition as_item (v : val) : option (key * option pstr) :=
+  match v with
+  | VList [sq; sst; nm] =>
+      do sq <- as_strs sq; do sst <- as_chars sst; do nm <- as_opt as_str nm; Some ((sq, sst), nm)
+  | _ => None
+  end.
+Definition of_out (o : nat + pstr) : val := match o with inl i => of_nat i | inr k => err k end.
+Definition of_run (r : res (list nat * option pstr)) : val :=
+  of_res (of_pair of_nats (of_opt err)) r.
+Definition of_objs (l : list (nat * key)) : val :=
+  of_list (of_pair of_nat of_key) (rev l).
+
 Definition dispatch_loops (op : pstr) (a : val) : option val :=
   if op_is op "cx_views" then Some (or_bad (
     match a with VList [sq; sst; _] =>
@@ -33,6 +45,13 @@ Definition dispatch_loops (op : pstr) (a : val) : option val :=
     match a with VList [sq; sst] =>
       do sq <- as_strs sq; do sst <- as_chars sst;
       Some (of_res (of_pair (of_list (of_pair of_nat of_key)) of_bool) (split_twice sq sst))
+    | _ => None end))
+  else if op_is op "cx_split_hist" then Some (or_bad (
+    match a with VList [pre; self] =>
+      do pre <- as_listof as_item pre; do self <- as_item self;
+      let '(outs, o, runs, objs) := split_history pre self in
+      Some (VList [of_list of_out outs; of_out o;
+                   of_opt (of_pair of_run of_run) runs; of_objs objs])
     | _ => None end))
   else if op_is op "split_in_domain" then Some (or_bad (
     do pt <- as_tab a; Some (VBool (split_in_domain (S (length pt)) pt))))
